@@ -133,8 +133,13 @@ Definition edges_ok (c : case) : bool :=
   (* the decidable hypotheses of C08_sym_rowsum_tetra and C08_mass_edges hold on this mesh *)
   cell_adjacency_ok (c_cells c) && edge_cover_ok (c_faces c) E.
 
-(* binary64 run: relative/absolute tolerance 1e-9, or equal (infinities of 1/0) *)
-Definition fclose2 (a b : float) : bool := fclose tol9 a b || PrimFloat.eqb a b.
+(* binary64 run: relative/absolute tolerance 1e-9 on finite values *)
+(* a = model, b = implementation. An infinite implementation value must be matched exactly (|a - inf| <= tol (1 + inf) would
+   hold for every a); NaN on either side is rejected (eqb and leb are false on NaN, is_nan makes it explicit). *)
+Definition fclose2 (a b : float) : bool :=
+  if PrimFloat.is_nan a || PrimFloat.is_nan b then false
+  else if PrimFloat.is_infinity b || PrimFloat.is_infinity a then PrimFloat.eqb a b
+  else fclose tol9 a b.
 Definition check_float (c : case) : bool := edges_ok c && check_with Fops fclose2 lit_f (cot_code Fops) c.
 
 (* exact run over Q (combinatorial operators: exact equality; planar lattice meshes: textbook cotangent, exact roots;
